@@ -92,6 +92,8 @@ var c12Templates = []string{
 	"{namespace a}\n/** */\n{template .t}\n{call .s /}\n{/template}\n/** */\n{template .s}\nstatic callee\n{/template}\n",
 	// 11: an empty template and a template whose only output is an empty print
 	"{namespace a}\n/** @param x */\n{template .t}\n{if $x == 'never'}y{/if}\n{/template}\n",
+	// 12: a template that calls itself (output before, inside and after the recursion)
+	"{namespace a}\n/** @param x\n @param? n */\n{template .t}\n[{$x}{if not $n}{call .t data=\"all\"}{param n: 1 /}{/call}{elseif $n == 1}{call .t}{param x: $x /}{param n: 2 /}{/call}{/if}]\n{/template}\n",
 }
 
 // c12Bundle: a catalogue translating the message of template 2 (text and placeholder parts are
